@@ -109,6 +109,8 @@ type World struct {
 	fails          []string
 	Wts            *wt.Server
 	OnConn         func(*SessRec) // extra hook at connection time (runs inside the listener)
+	// OverlappingHandOffs: the scenario lets a second hand-off happen before the drain of the one before it
+	OverlappingHandOffs bool
 	InitialHeaders []string       // sids (or "?") for which initial_headers fired
 	HeadersEv      int
 	hdrHook        func(name string, h map[string][]string, req *types.HttpContext)
